@@ -74,7 +74,7 @@ SuiteTwo(qs, al)      == [name |-> "two", queries |-> qs, alpha |-> al, families
 SuiteIdxSmall  == [name |-> "idx", queries |-> {<<"a","c","c","a","c">>}, alpha |-> AC, families |-> {"same", "sub2", "ext"},
                    nrefs |-> {3}, fillers |-> F9, pats |-> {3, 9, 11, 13}]
 QuickSuites    == {SuiteNear(QNearQuick, AC, {1, 2}), SuiteIdxSmall}
-ThoroughSuites == {SuiteNear(Q78, AC, {1, 2, 3}), SuiteNear(Q7, ACGT, {2}), SuiteIdx(Q5, AC), SuiteIdx(Q5, ACGT), SuiteTwo(Q10, AC)}
+ThoroughSuites == {SuiteNear(Q78, AC, {1, 2, 3}), SuiteNear(Q7, ACGT, {2}), SuiteIdx(Q5, AC), SuiteTwo(Q10, AC)}
 ScanSuites     == {SuiteNear(Q78, AC, {2})}
 IndexSuites    == {SuiteIdx(Q5, AC)}
 
